@@ -32,7 +32,9 @@ def oracle(case):
     curve = case["curve"]
     key = Key.from_secret_exponent(bytes.fromhex(case["secret"]), curve.encode())
     g = case["group"]
-    opg = OperationGroup(context=ExecutionContext(key=key), contents=[dict(c) for c in g["contents"]],
+    # the group is bound to case["chain_id"]; the client context it was built from may know no chain, the same one, or another one
+    ctx = ExecutionContext(key=key, chain_id=case["ctx_chain_id"]) if case.get("ctx_chain_id") else ExecutionContext(key=key)
+    opg = OperationGroup(context=ctx, contents=[dict(c) for c in g["contents"]],
                          branch=g["branch"], chain_id=case["chain_id"], protocol="PtTALLiNtPec7mE7yY4m3k26J8Qukef3E3ehzhfXgFZKGtDdAXu")
     kinds = [c["kind"] for c in g["contents"]]
     passes = {0 if k == "endorsement" else (-1 if k == "failing_noop" else (2 if k == "activate_account" else 3))
@@ -151,7 +153,11 @@ def cases(draw, curves):
                                            "pkh": "tz1Ke2h7sDdakHJQh8WX4Z372du1KChsksyU", "secret": "00" * 20}]))]
         if draw(st.booleans()):
             contents.reverse()
-    return {"curve": curve, "secret": sec.hex(), "mode": mode, "chain_id": rc.tz_encode(draw(st.binary(min_size=4, max_size=4)), "Net"),
+    chain = rc.tz_encode(draw(st.binary(min_size=4, max_size=4)), "Net")
+    ctx_chain = draw(st.sampled_from([None, None, chain, "other"]))
+    if ctx_chain == "other":
+        ctx_chain = rc.tz_encode(draw(st.binary(min_size=4, max_size=4)), "Net")
+    return {"curve": curve, "secret": sec.hex(), "mode": mode, "chain_id": chain, "ctx_chain_id": ctx_chain,
             "group": {"branch": draw(gen_ops.branch()), "contents": contents}, "extra": extra}
 
 
